@@ -228,6 +228,21 @@ TicketDemand(authentic, keyIdx, sameVersion, suiteOffered) ==
   IF ~authentic \/ keyIdx = 0 \/ ~sameVersion \/ ~suiteOffered THEN {"full"}
   ELSE IF keyIdx = 1 THEN {"resume"} ELSE {"resume", "full"}
 
+(* Automatic rotation (no SetSessionTicketKeys / SessionTicketKey), the documented policy of
+   Config.SessionTicketKey: "session ticket keys will be automatically rotated every day and
+   dropped after seven days"; tickets are issued under the newest key.  Keys are identified by
+   their creation time (hours).  Config.ticketKeys runs at the start of every connection:
+   a new key when there is none or the newest is a day old, and at that moment keys of seven days
+   and more are dropped.  (A key older than seven days may linger until the next rotation - such a
+   key is not the newest, so TicketDemand leaves its acceptance open.)  The acceptable keys at a
+   connection are therefore a function of the history of connection times. *)
+AutoStep(keys, t) ==
+  IF keys = <<>> \/ t - keys[1].c >= 24
+  THEN <<[id |-> "auto", c |-> t]>> \o SelectSeq(keys, LAMBDA k : t - k.c < 168)
+  ELSE keys
+RECURSIVE AutoKeysAfter(_, _)
+AutoKeysAfter(keys, times) == IF times = <<>> THEN keys ELSE AutoKeysAfter(AutoStep(keys, Head(times)), Tail(times))
+
 ApplyOp(keys, h) ==
   CASE h.op = "rot"      -> <<h.k>> \o keys                 \* SetSessionTicketKeys(new, old...)
     [] h.op = "drop"     -> <<Head(keys)>>                  \* SetSessionTicketKeys(current)
